@@ -22,6 +22,7 @@ type g struct {
 	willN   int
 	tier    string
 	force   []int // forced values for pick (enumerations)
+	flood   bool  // witness profile: the publisher floods a stalled attacker
 }
 
 func newGen(seed uint64, prop string, idx int, tier string) *g {
@@ -1245,6 +1246,7 @@ func corrupt(r *simrt.Rand, b []byte) ([]byte, bool, string) {
 
 func (x *g) witnessPair(rounds int) (Client, Client) {
 	r := x.r
+	flood := x.flood
 	wp := Client{Role: "witness"}
 	ws := Client{Role: "witness"}
 	wp.Ops = append(wp.Ops, Op{K: "connect", CID: "wpub", Clean: true, KA: 600, Auth: true, User: "wpub", Pass: "secret-wpub"})
@@ -1252,11 +1254,19 @@ func (x *g) witnessPair(rounds int) (Client, Client) {
 	wp.Ops = append(wp.Ops, Op{K: "barrier"})
 	ws.Ops = append(ws.Ops, Op{K: "barrier"})
 	for i := 0; i < rounds; i++ {
-		for k := 2 + r.Intn(6); k > 0; k-- {
+		n := 2 + r.Intn(6)
+		if flood {
+			n = 7 + r.Intn(5)
+		}
+		for k := n; k > 0; k-- {
 			x.seq[0]++
 			op := Op{K: "pub", Topic: "w/a", QoS: byte(r.Intn(3)), Size: x.size(), Seq: x.seq[0]}
 			if r.Bool(1, 6) {
 				op.Size = 8 + r.Intn(30)
+			}
+			if flood {
+				// enough volume to fill a stalled subscriber's ring and link
+				op.Size = 4000 + r.Intn(4000)
 			}
 			if op.QoS > 0 {
 				op.PID = x.nextPID(0)
@@ -1373,9 +1383,27 @@ func genWitness(prop string) func(tier string, seed uint64, idx int) interface{}
 		nc := 2 + na
 		x.seq = make([]int, nc)
 		x.pid = make([]int, nc)
+		// a sixth of the scripts: the witness publisher floods, one attacker
+		// subscribes to the flood, stops reading and vanishes once the
+		// publisher's processor is parked on its full ring
+		x.flood = r.Bool(1, 6)
+		if x.flood {
+			x.sc.Knobs.BufSize = 16384
+			x.sc.Knobs.LinkCap = []int{64, 512, 4096}[r.Intn(3)]
+		}
 		wp, ws := x.witnessPair(1 + r.Intn(3))
 		x.sc.Clients = append(x.sc.Clients, wp, ws)
 		for a := 0; a < na; a++ {
+			if x.flood && a == 0 {
+				cl := Client{Role: "attacker", AckMode: "none"}
+				cl.Ops = append(cl.Ops, Op{K: "barrier"},
+					Op{K: "connect", CID: "att2", Clean: r.Bool(2, 3), KA: 600, Auth: true, User: "a", Pass: "secret-a"},
+					Op{K: "sub", PID: 5, Filters: []string{[]string{"w/#", "#", "w/a"}[r.Intn(3)]}, QoSs: []byte{byte(r.Intn(3))}},
+					Op{K: "stall"}, Op{K: "sleep", D: 50 + r.Intn(500)},
+					Op{K: []string{"close", "rst"}[r.Intn(2)]})
+				x.sc.Clients = append(x.sc.Clients, cl)
+				continue
+			}
 			x.sc.Clients = append(x.sc.Clients, x.attacker(2+a, r.Intn(5)))
 		}
 		return x.sc
